@@ -14,6 +14,7 @@ var props = map[string]struct {
 	fn    func(*h.Run)
 }{
 	"dbg-lo": {"other", h.DebugLO},
+	"dbg-launder": {"other", h.DebugLaunder},
 	"dbg-wide": {"other", h.DebugWide},
 	"dbg-hang": {"other", h.DebugHang},
 	"dbg-rep": {"other", h.DebugRepeat},
